@@ -163,7 +163,8 @@ fn one_case(t: i32, i: usize, ctx: &Ctx, rep: &mut Report) {
         max_parts: ctx.pick(4, 8),
         max_len: ctx.pick(5, 12),
     };
-    let n = r.usize_in(1, ctx.pick(5, 12));
+    // every 7th file holds 9..40 records (periodic work per N records must not skip a box update)
+    let n = if i % 7 == 6 && !cfg!(miri) { 9 + r.usize_in(0, 31) } else { r.usize_in(1, ctx.pick(5, 12)) };
     let mut inputs: Vec<Vec<(i32, Vec<V>)>> = (0..n).map(|_| gen_input(t, &mut r, &c)).collect();
     // dedicated large cases: one shape gets a LATER part (or, for multipoints, its only part)
     // whose vertex count straddles a power of two, with an extreme forced into one of its last
@@ -175,12 +176,16 @@ fn one_case(t: i32, i: usize, ctx: &Ctx, rep: &mut Report) {
         let si = r.usize_in(0, inputs.len() - 1);
         let big: Vec<V> = (0..sz).map(|_| [gen::coord(&mut r, &c, false).to_bits(), gen::coord(&mut r, &c, false).to_bits(), gen::coord(&mut r, &c, true).to_bits(), gen::coord(&mut r, &c, true).to_bits()]).collect();
         let kind = if t == 31 { r.below(2) as i32 } else { r.below(2) as i32 };
+        // the large part is the last one or (every second large case) the FIRST one of its shape
+        let first = (i / 2) % 2 == 1;
         if gen::is_multipoint(t) {
             inputs[si] = vec![(0, big)];
+        } else if first {
+            inputs[si].insert(0, (kind, big));
         } else {
             inputs[si].push((kind, big));
         }
-        let pi = inputs[si].len() - 1;
+        let pi = if first || gen::is_multipoint(t) { 0 } else { inputs[si].len() - 1 };
         forced_large = Some((si, pi, sz));
         rep.count("large_part_cases(amounts straddling powers of two)", 1);
     }
@@ -293,8 +298,12 @@ fn one_case(t: i32, i: usize, ctx: &Ctx, rep: &mut Report) {
         match route {
             0 => {
                 let mut w = ShapeWriter::new(&mut shp);
-                for s in &shapes {
+                for (k, s) in shapes.iter().enumerate() {
                     write_one(&mut w, s)?;
+                    // every second file of this route: a finalize between two writes as well
+                    if i % 2 == 1 && k + 1 == (shapes.len() + 1) / 2 && k + 1 < shapes.len() {
+                        w.finalize()?;
+                    }
                 }
                 w.finalize()
             }
